@@ -4,10 +4,8 @@
 (* freedom is what the base specification leaves open plus:                                         *)
 (*   - between start_b and start_e of an accepted start (the thread exists, the caller has not yet  *)
 (*     returned) a concurrent stop may be lost and a concurrent status may still be IDLE,           *)
-(*   - Dev_ExtStateIgnored: a module that implements _ext_state() as the docstring says is reported  *)
-(*     IDLE '' when no sequence is active (the code looks for readHwStatus instead),                  *)
-(*   - Dev_LateStop, Dev_EndBeforeHandle: named deviations of the code as it stands (reported as     *)
-(*     findings, never silently taken).  Dev_EndBeforeHandle: a sequence that is over before         *)
+(*   - Dev_LateStop, Dev_EndBeforeHandle: named deviations of the code as it stood before the        *)
+(*     repairs cc0eb0a / 5015899 (a trace that needs one is reported, never silently accepted).  Dev_EndBeforeHandle: a sequence that is over before         *)
 (*     start_sequence has stored the thread handle leaves the handle of a thread that still has to   *)
 (*     poll: until that poll is done read_status says BUSY (also in that very poll, so the status    *)
 (*     parameter stays BUSY) and start_sequence is refused.                                           *)
@@ -27,7 +25,6 @@ SameStatus(a, b) == a.code = b.code /\ (a.code # "BUSY" => (a.word = b.word /\ a
 (* (event times are in half ticks) *)
 EndInTime == (pc' = "none" /\ stopflag /\ stopAt >= 0) => Ev.vt <= stopAt + 2 * MaxWait
 
-ExtIgnored == hook = "ext" /\ ~alive /\ out.kind = "none" /\ starting = "no"
 Settled == (~alive /\ owed = 0 /\ starting = "no") => cached.code # "BUSY"
 
 TStep ==
@@ -68,7 +65,6 @@ TStep ==
                  ELSE /\ Ev.code = Status.code
                       /\ TextBinding(pc) => (Ev.word = Status.word /\ Ev.k = Status.k)
               /\ UNCHANGED devs
-           \/ ExtIgnored /\ SameStatus(ObsStatus(Ev), Idle) /\ devs' = devs \cup {"Dev_ExtStateIgnored"}
            \/ ghost /\ ~alive /\ Ev.code = "BUSY" /\ devs' = devs \cup {"Dev_EndBeforeHandle"}
         /\ cached' = ObsStatus(Ev)
         /\ UNCHANGED <<seq, k, i, n, pc, res, stopflag, out, owed, last, fm, hook, starting, runid, stopAt, ghost>>
@@ -77,9 +73,8 @@ TStep ==
         /\ UNCHANGED <<seq, k, i, n, pc, res, stopflag, out, cached, last, fm, hook, devs, starting, runid, stopAt>>
      \/ /\ Ev.ev = "quiet" /\ pc = "none" /\ owed = 0 /\ starting = "no"     \* all threads are gone
         /\ SameStatus(Ev.cached, cached)
-        /\ \/ SameStatus(Ev.live, Status) /\ UNCHANGED devs
-           \/ ExtIgnored /\ SameStatus(Ev.live, Idle) /\ devs' = devs \cup {"Dev_ExtStateIgnored"}
-        /\ UNCHANGED <<svars, starting, runid, stopAt, ghost>>
+        /\ SameStatus(Ev.live, Status)
+        /\ UNCHANGED <<svars, devs, starting, runid, stopAt, ghost>>
   (* when no sequence is alive and every finished thread has polled, the status parameter is not BUSY *)
   /\ Settled' \/ "Dev_EndBeforeHandle" \in devs'
 
